@@ -44,7 +44,17 @@ var exprNames = []string{"TU", "VP", "TU+VP", "TU(assoc)+VP", "TU+VP(assoc)", "T
 var vdescNames = []string{"id", "label", "none", "empty", "empty-strings"}
 var tdescNames = []string{"tripid", "route+dir+start"}
 
+// tripRelationships: unset, then every value of the wire enum
+var tripRelationships = []*gtfsrt.TripDescriptor_ScheduleRelationship{nil, gtfsrt.TripDescriptor_SCHEDULED.Enum(), gtfsrt.TripDescriptor_ADDED.Enum(), gtfsrt.TripDescriptor_UNSCHEDULED.Enum(),
+	gtfsrt.TripDescriptor_CANCELED.Enum(), gtfsrt.TripDescriptor_REPLACEMENT.Enum(), gtfsrt.TripDescriptor_DUPLICATED.Enum(), gtfsrt.TripDescriptor_DELETED.Enum()}
+
+// assocVariant: 0 plain; 1 the trip descriptors carry a schedule relationship (choice point);
+// 2 an alert naming the trips of all pairs (and a stop) may be added
 func genAssoc(c *Ctx, nPairs int, withExtras bool, withConflicts bool) *assocMsg {
+	return genAssocV(c, nPairs, withExtras, withConflicts, 0)
+}
+
+func genAssocV(c *Ctx, nPairs int, withExtras bool, withConflicts bool, variant int) *assocMsg {
 	am := &assocMsg{}
 	var ents []*gtfsrt.FeedEntity
 	var key strings.Builder
@@ -55,6 +65,13 @@ func genAssoc(c *Ctx, nPairs int, withExtras bool, withConflicts bool) *assocMsg
 			ap.td = &gtfsrt.TripDescriptor{TripId: sp(fmt.Sprintf("T%d", i+1)), RouteId: sp("R")}
 		} else {
 			ap.td = &gtfsrt.TripDescriptor{RouteId: sp("R"), DirectionId: cp(new(uint32)), StartTime: sp(fmt.Sprintf("0%d:00:00", i+1)), StartDate: sp("20240102")}
+		}
+		if variant == 1 {
+			k := c.Free(p+"schedule_relationship", len(tripRelationships))
+			ap.td.ScheduleRelationship = tripRelationships[k]
+			if k > 0 {
+				fmt.Fprintf(&key, "rel=%s ", tripRelationships[k])
+			}
 		}
 		switch ap.vdesc {
 		case 0:
@@ -117,6 +134,15 @@ func genAssoc(c *Ctx, nPairs int, withExtras bool, withConflicts bool) *assocMsg
 			ents = append(ents, &gtfsrt.FeedEntity{Id: sp("alert1"), Alert: &gtfsrt.Alert{InformedEntity: []*gtfsrt.EntitySelector{{Trip: cloneTD(am.pairs[0].td)}, {StopId: sp("X")}}}})
 			key.WriteString("alertMention ")
 		}
+	}
+	if variant == 2 && c.Free("alert_names_the_trips_of_all_pairs", 2) == 1 {
+		a := &gtfsrt.Alert{}
+		for _, ap := range am.pairs {
+			a.InformedEntity = append(a.InformedEntity, &gtfsrt.EntitySelector{Trip: cloneTD(ap.td)})
+		}
+		a.InformedEntity = append(a.InformedEntity, &gtfsrt.EntitySelector{StopId: sp("X")})
+		ents = append(ents, &gtfsrt.FeedEntity{Id: sp("alertAll"), Alert: a})
+		key.WriteString("alertNamesAllPairs ")
 	}
 	if withConflicts {
 		switch c.Free("conflict", 4) {
@@ -191,9 +217,11 @@ func entityOrder(m *gtfsrt.FeedMessage) string {
 	return strings.Join(ids, ",")
 }
 
-func c04Harness(nPairs int, extras bool) Harness {
+func c04Harness(nPairs int, extras bool) Harness { return c04HarnessV(nPairs, extras, 0) }
+
+func c04HarnessV(nPairs int, extras bool, variant int) Harness {
 	return func(c *Ctx) {
-		am := genAssoc(c, nPairs, extras, false)
+		am := genAssocV(c, nPairs, extras, false, variant)
 		b := marshalFeed(am.msg)
 		c.Input(hash64(string(b)), true, func() string { return am.key + "order=" + entityOrder(am.msg) + "\n" + feedText(am.msg) })
 		// the parse may be preceded, in the same process, by the parse of a CONFLICTING message
@@ -309,11 +337,12 @@ func init() {
 	register(&Check{
 		ID:    "C04",
 		Level: "model_checking",
-		Rule: "full product: 1 pair (+ optional unrelated trip, unrelated vehicle, alert mentioning the trip, alert naming two new trips), each optionally preceded in the same process by the parse of a conflicting message about the same ids and 2 pairs; association expressed by {TU, VP, both} x vehicle descriptor {id, label only, none, present but empty} x trip descriptor {trip id, route+direction+start}; all n! entity orders (n<=5); all map rotations at every library range; thorough adds 2 pairs with extras; " +
+		Rule: "full product: 2 pairs optionally with an alert naming the trips of both; 1 pair whose trip descriptor carries every schedule relationship (unset, SCHEDULED, ADDED, UNSCHEDULED, CANCELED, REPLACEMENT, DUPLICATED, DELETED); 1 pair (+ optional unrelated trip, unrelated vehicle, alert mentioning the trip, alert naming two new trips), each optionally preceded in the same process by the parse of a conflicting message about the same ids and 2 pairs; association expressed by {TU, VP, both} x vehicle descriptor {id, label only, none, present but empty} x trip descriptor {trip id, route+direction+start}; all n! entity orders (n<=5); all map rotations at every library range; thorough adds 2 pairs with extras; " +
 			"non-trivial = every distinct message; oracle = link invariants on the real result",
 		Assumptions: []string{"entries are located by identifier, id-less vehicles by the stop id of their position entity"},
 		Scenarios: func(tier string) []*Scenario {
-			s := []*Scenario{{Name: "one-pair+extras", Bound: -1, Run: c04Harness(1, true)}, {Name: "two-pairs", Bound: -1, Run: c04Harness(2, false)}}
+			s := []*Scenario{{Name: "one-pair+extras", Bound: -1, Run: c04Harness(1, true)}, {Name: "two-pairs", Bound: -1, Run: c04HarnessV(2, false, 2)},
+				{Name: "one-pair-with-schedule-relationships", Bound: -1, Run: c04HarnessV(1, false, 1)}}
 			if tier == "thorough" {
 				s = append(s, &Scenario{Name: "two-pairs+extras", Bound: -1, Run: c04Harness(2, true)}, &Scenario{Name: "three-pairs", Bound: -1, Run: c04Harness(3, false)})
 			}
